@@ -80,6 +80,15 @@ CHECKS = {
             "counters and the counters of the library's type-order / applicability functions unchanged; again after a register().",
             "Failing calls are re-resolved by design and excluded; value conditions are per-call by design.",
             "DESIGN.md §4 C20"),
+    "C06": ("exploration",
+            "runtime metamorphic monitor: outcome vectors across registration orders, forced iteration orders (order hooks), added inapplicable methods, hash seeds / address layouts in sub-processes",
+            "The same program and calls are run under configurations that must not matter; every vector must equal the "
+            "canonical one. Iteration orders are forced through the OVLD_VERIF order hooks; hash seed, allocation pattern and "
+            "re-run are varied in separate unpinned processes.",
+            "Seeds and layouts are sampled. Differences are attributed to F1/F16 only when the frozen transcription predicts "
+            "both vectors (or, for added methods, the library's own layer indices of the applicable candidates are seen to "
+            "shift), and to F8 only when the real order relation is observed asymmetric or cyclic on the program's types.",
+            "DESIGN.md §4 C06"),
     "C07": ("exploration",
             "runtime monitor: delegation trees returned by generated bodies vs iterated-removal reference model",
             "Every body reports itself and what its call_next / f.next returned, so one call yields the whole chain; the "
